@@ -105,7 +105,7 @@ func genPU(t *rapid.T) puCase {
 		}
 	case 2:
 		pos := rapid.IntRange(0, len(body)-1).Draw(t, "dpos")
-		body[pos] = rapid.SampledFrom([]byte(digits + "ABCXYZ +-.:/@[`{\xff\x00")).Draw(t, "bad")
+		body[pos] = rapid.SampledFrom([]byte(digits+"ABCXYZ +-.:/@[`{\xff\x00")).Draw(t, "bad")
 	case 3:
 		body = append([]byte(rapid.SampledFrom([]string{"+", "-", " ", "0", "00", "_"}).Draw(t, "lead")), body...)
 	case 4:
@@ -384,7 +384,9 @@ type ipCase struct{ X uint32 }
 func genIP(t *rapid.T) ipCase {
 	switch rapid.IntRange(0, 2).Draw(t, "k") {
 	case 0:
-		o := func() uint32 { return rapid.SampledFrom([]uint32{0, 1, 9, 10, 99, 100, 127, 128, 199, 200, 254, 255}).Draw(t, "o") }
+		o := func() uint32 {
+			return rapid.SampledFrom([]uint32{0, 1, 9, 10, 99, 100, 127, 128, 199, 200, 254, 255}).Draw(t, "o")
+		}
 		return ipCase{o()<<24 | o()<<16 | o()<<8 | o()}
 	case 1:
 		pos := uint(rapid.IntRange(0, 3).Draw(t, "pos")) * 8
